@@ -68,6 +68,11 @@
 (*               LATER member (first accepting member wins).  This is how  *)
 (*               a result can differ from its own re-parse (C10) without   *)
 (*               any of the deviations above.                              *)
+(*   reparseShift (dump; recognised by Trace_Types only) the tree that one *)
+(*               Union member wrote is read back by an EARLIER member as   *)
+(*               another value: Union[Set[str],Tuple[E,...]] writes        *)
+(*               (E.A, E.B) as [A, B] and reads {'A','B'}.  The round trip *)
+(*               itself is C01's; here the second dump differs.            *)
 (*   leftObject / leftSet (dump) with serialize=True the Enum branch       *)
 (*               returns ANY foreign value unchanged instead of raising,   *)
 (*               so in a Union an Enum member written first wins and the   *)
@@ -469,6 +474,16 @@ AlgCheckType(t, x, dflt) ==
                   ELSE IF ValidString(t, loaded) THEN Ok(loaded, {}, x) ELSE Er(r1.dev, x)   \* :604-606
           ELSE Er(r1.dev, r1.m)
 
+\* validate works on cfg.clone(): _namespace.recreate_branches copies Namespaces, dicts and lists but SHARES tuples
+\* (and what is inside them), so what the validation pass converts in place below a tuple shows in the result.
+\* v: the value before validation; m: the state in which validation left its clone
+RECURSIVE Protect(_, _)
+Protect(v, m) ==
+  IF v.k = "list" /\ m.k = "list" /\ Len(m.v) = Len(v.v) THEN ListV([n \in 1..Len(v.v) |-> Protect(v.v[n], m.v[n])])
+  ELSE IF v.k = "dict" /\ m.k = "dict" /\ Len(m.v) = Len(v.v) THEN DictV([n \in 1..Len(v.v) |-> <<v.v[n][1], Protect(v.v[n][2], m.v[n][2])>>])
+  ELSE IF v.k = "tuple" /\ m.k = "tuple" /\ Len(m.v) = Len(v.v) THEN m
+  ELSE v
+
 \* One key through parse_object({key: x}) / parse_args(["--key=" + text]):
 \*   _core._check_value_key:1413  None is not checked (lenient_check)
 \*   _apply_actions / ActionTypeHint.__call__   first _check_type
@@ -482,7 +497,7 @@ AlgParse(t, x, dflt) ==
             IF ~r2.ok THEN Er(r1.dev \cup r2.dev, r1.m)
             ELSE IF r2.v = NoneV THEN Ok(NoneV, r1.dev \cup r2.dev, r1.m)
             ELSE LET r3 == AlgCheckType(t, r2.v, dflt) IN
-                 IF r3.ok THEN Ok(r2.v, r1.dev \cup r2.dev \cup r3.dev, r1.m) ELSE Er(r1.dev \cup r2.dev \cup r3.dev, r1.m)
+                 IF r3.ok THEN Ok(Protect(r2.v, r3.m), r1.dev \cup r2.dev \cup r3.dev, r1.m) ELSE Er(r1.dev \cup r2.dev \cup r3.dev, r1.m)
 
 \* adapt_typehints(..., serialize=True) as called by ActionTypeHint.serialize:497-519 (no orig_val): the config
 \* representation that dump writes.
